@@ -568,7 +568,8 @@ class World:
                     "C06",
                     v["sig"],
                     f"after {name} (hop {hop}): {v['detail']} [cursor path {v['path']}]",
-                    dict({"op": name, "sig": v["sig"], "stmt": v["stmt_class"]}, **({"attr": v["attr"]} if v.get("attr") else {})),
+                    dict({"op": name, "sig": v["sig"], "stmt": v["stmt_class"]}, **({"attr": v["attr"]} if v.get("attr") else {}),
+                         **({"exc": v["exc"]} if v.get("exc") else {})),
                 )
             if vs:
                 break
